@@ -10,7 +10,7 @@ import (
 // ---- CSV text grammar ----
 
 var plainFields = []string{"a", "b", "name", "John", "US", "19", "x y", "é", "世界", "0", "-1.5", "true", "a'b", "a;b", "a|b", "a\tb", "#nocomment", "end."}
-var hardFields = []string{"", "", "a,b", "say \"hi\"", "\"", "line1\nline2", "line1\r\nline2", " lead", "trail ", "  ", ",", "\n", "#", "a,\"b\"\nc", "\r", "x\ry"}
+var hardFields = []string{"", "", "a,b", "say \"hi\"", "\"", "line1\nline2", "line1\r\nline2", " lead", "trail ", "  ", ",", "\n", "#", "a,\"b\"\nc", "\r", "x\ry", "\ufeffid", "\ufeff", "\u00a0pad", "\u200b", "nul\x00inside"}
 
 // longField is one field of 4200..9000 bytes: longer than the 4096-byte buffers of csv.Reader, csv.Writer and bufio.
 func longField(r *rand.Rand) string {
@@ -116,7 +116,27 @@ func genText(r *rand.Rand, sep string) textSpec {
 	if r.Intn(15) == 0 {
 		sb.WriteString(eol + eol)
 	}
-	return textSpec{text: sb.String(), nrecs: n, broken: brokenAt >= 0}
+	text := sb.String()
+	// one text in 8 starts with a mark that is field text to a CSV parse (a byte order mark, mostly: spreadsheet
+	// exports start with one), once or twice, in front of whatever the first field is (plain, quoted, a comment
+	// line, a blank line, nothing at all)
+	if r.Intn(8) == 0 {
+		mark := leadingMarks[0].mark
+		if r.Intn(3) == 0 {
+			mark = leadingMarks[r.Intn(len(leadingMarks))].mark
+		}
+		if r.Intn(6) == 0 {
+			mark += mark
+		}
+		if r.Intn(8) == 0 {
+			mark += eol // the mark alone on the first line
+		}
+		text = mark + text
+		if n == 0 {
+			n = 1
+		}
+	}
+	return textSpec{text: text, nrecs: n, broken: brokenAt >= 0}
 }
 
 var fixedTexts = []string{
@@ -135,6 +155,15 @@ var fixedTexts = []string{
 	"h1,h2\n" + strings.Repeat("a field longer than any buffer ", 160) + ",b\nc,d\n",
 	"h1,h2\n\"" + strings.Repeat("quoted, with \"\"quotes\"\" and\nline breaks; ", 120) + "\",b\nc,d\n",
 	"name;country;age\n\"mike;jr\";US;20\n# note\nJohn;US;19\n",
+	// texts that start with a byte order mark, as spreadsheet programs export them: the mark is text of the first field
+	"\ufeffname,country,age\nJohn,US,19\nMike,US,20\n",
+	"\ufeffname;country;age\nJohn;US;19\nMike;US;20\n",
+	"\ufeff\"name\",\"country\"\n\"John\",\"US\"\n", // the mark before a quoted field: a bare quote in a non-quoted field
+	"\ufeff\n\ufeffname,age\nJohn,19\n",             // the mark alone on the first line: one field, then two
+	"\ufeff# heading line\nname,age\nJohn,19\n",     // the mark before a comment rune: not a comment line
+	"\ufeff\ufeffa,b\n1,2\n",
+	"name,age\n\ufeffJohn,19\nMike,\ufeff\n", // the mark elsewhere
+	"\ufeff",
 }
 
 func genOpts(r *rand.Rand, nrecs int) (Opts, string) {
@@ -181,7 +210,29 @@ func genOpts(r *rand.Rand, nrecs int) (Opts, string) {
 		o.Skip = r.Intn(nrecs + 3)
 	}
 	o.Close = r.Intn(3) == 0
+	o.Order = genOrder(r, o)
 	return o, sep
+}
+
+// genOrder draws the order in which the option functions are handed to the codec: half of the option sets keep the
+// canonical order; the others are a random permutation of the functions that carry a setting, to which a function with
+// its zero value (an unset option, spelt out) is added now and then.
+func genOrder(r *rand.Rand, o Opts) string {
+	if r.Intn(2) == 0 {
+		return ""
+	}
+	need := o.carries()
+	var l []string
+	for _, name := range optionFuncs {
+		if need[name] || (name != "close" && r.Intn(5) == 0) {
+			l = append(l, name)
+		}
+	}
+	r.Shuffle(len(l), func(i, j int) { l[i], l[j] = l[j], l[i] })
+	if strings.Join(l, ",") == strings.Join(Opts{Comma: o.Comma, Comment: o.Comment, Lazy: o.Lazy, Trim: o.Trim, FPR: o.FPR, Reuse: o.Reuse, WComma: o.WComma, CRLF: o.CRLF, Skip: o.Skip, Close: o.Close}.given(), ",") {
+		return "" // the canonical order after all
+	}
+	return strings.Join(l, ",")
 }
 
 func genChunks(r *rand.Rand, zeros bool) []int {
@@ -262,6 +313,9 @@ func genGroup(r *rand.Rand, idx int) []*Case {
 			}
 			if strings.HasPrefix(text, "#") {
 				o.Comment = "#"
+			}
+			if idx%2 == 1 {
+				o.Order = "close,skip,writer,reader" // the canonical order reversed (zero-valued functions spelt out)
 			}
 		}
 	} else {
